@@ -10,8 +10,8 @@
 //!                             assignment, bit v of the index = variable v);
 //!                             Boolean kinds: hex nibbles (bit j of nibble k =
 //!                             index 4k+j); mtbdd: comma separated values
-//!   `O <v0> <v1> ...`         `oxidd_reorder::set_var_order` (only generated
-//!                             when VERIF_C15_REORDER=1)
+//!   `O <v0> <v1> ...`         `oxidd_reorder::set_var_order` (not generated
+//!                             when VERIF_C15_REORDER=0)
 //!   `X ver=<2|3> mode=<a|b> strict=<0|1> dd=<name> rn=<0|1> roots=<i[:name],..>`
 //!                             export, load, import (same manager, fresh
 //!                             manager, embedding), dump
@@ -1481,7 +1481,7 @@ impl Gen {
 
 fn gen(tier: &str, seed: u64) {
     let thorough = tier == "thorough";
-    let mut g = Gen { rng: Rng::new(seed), id: 0, reorder: std::env::var("VERIF_C15_REORDER").map(|v| v == "1").unwrap_or(false) };
+    let mut g = Gen { rng: Rng::new(seed), id: 0, reorder: std::env::var("VERIF_C15_REORDER").map(|v| v != "0").unwrap_or(true) };
     for dd in ["bdd", "bcdd", "zbdd", "mtbdd", "tdd"] {
         g.three_var_cases(dd);
         g.random_cases(dd, if thorough { 400 } else { 40 });
